@@ -175,40 +175,57 @@ Proof.
   rewrite rd_app_l by (rewrite ?zlen_ztake; lia). reflexivity.
 Qed.
 
-(* the PyMusepack fix-up finds nothing to extend *)
-Lemma fix_start_id k real f start :
-  0 <= start <= zlen f ->
-  has_marker (ztake start f) = false -> (start = 0 \/ is_marker f 0 = false) ->
-  fix_start (S k) real f start = Ok start.
+(* the PyMusepack fix-up never seeks before the start of the file: both seek flavours agree *)
+Lemma fix_start_flavour k f : forall start, fix_start k true f start = fix_start k false f start.
 Proof.
-  intros Hs Hm H0. cbn [fix_start]. destruct (start <=? 0) eqn:E; [reflexivity|].
-  unfold rseek. destruct (start + -24 <? 0) eqn:E2.
-  - destruct real; [reflexivity|]. destruct H0 as [H0|H0]; [lia|]. rewrite H0. reflexivity.
-  - rewrite (is_marker_ztake f start) by lia. rewrite (no_marker_probe _ _ Hm). reflexivity.
+  induction k as [|k IH]; intros start; cbn [fix_start]; destruct (start <? 24) eqn:E; try reflexivity.
+  unfold rseek. destruct (start + -24 <? 0) eqn:E2; [lia|].
+  destruct (is_marker f (start + -24)); [apply IH|reflexivity].
 Qed.
 
-Theorem locate_tagged real f e :
+(* ... and finds nothing to extend when the body carries no marker *)
+Lemma fix_start_id k real f start :
+  0 <= start <= zlen f -> has_marker (ztake start f) = false -> fix_start (S k) real f start = Ok start.
+Proof.
+  intros Hs Hm. cbn [fix_start]. destruct (start <? 24) eqn:E; [reflexivity|].
+  unfold rseek. destruct (start + -24 <? 0) eqn:E2; [lia|].
+  rewrite (is_marker_ztake f start) by lia. rewrite (no_marker_probe _ _ Hm). reflexivity.
+Qed.
+
+Definition tagged_loc (f : list Z) (e : Z) : loc :=
+  mkLoc (tag_start f e) (tag_start f e) (e - ft_size f e) (Some (e - 32)) e (ft_size f e - 32)
+        (ft_count f e) (ft_flags f e) false.
+
+(* the same record for both flavours *)
+Theorem locate_tagged_eq real f e :
   strict_end f = Some e -> 32 <= ft_size f e -> 0 <= tag_start f e ->
   has_marker (ztake (tag_start f e) f) = false ->
-  (tag_start f e = 0 \/ is_marker f 0 = false) ->
-  exists l, ape_locate real f = Ok (Some l) /\
-    l_start l = tag_start f e /\ l_end l = e /\ l_at_start l = false /\
-    l_data l = e - ft_size f e /\ l_size l = ft_size f e - 32 /\ l_items l = ft_count f e /\ l_footer l = Some (e - 32).
+  ape_locate real f = Ok (Some (tagged_loc f e)).
 Proof.
-  intros SE Hsz Hst Hm H0.
+  intros SE Hsz Hst Hm.
   destruct (strict_end_inv f e SE) as (He & _ & Hfm).
   unfold ape_locate. rewrite (Hfm real). cbv beta iota zeta.
   rewrite (zlen_rd f (e - 32 + 8) 16) by lia. change (negb (16 =? 16)) with false. cbv iota.
   destruct (d16_fields f (e - 32)) as (F1 & F2 & F3); [lia|]. rewrite F1, F2, F3.
   fold (ft_size f e) (ft_count f e) (ft_flags f e).
-  assert (Hh : (if Z.land (ft_flags f e) HAS_HEADER =? 0 then e - 32 + 32 - ft_size f e
-                else e - 32 + 32 - ft_size f e - 32) = tag_start f e).
+  replace (e - 32 + 32) with e by lia.
+  assert (Hh : (if Z.land (ft_flags f e) HAS_HEADER =? 0 then e - ft_size f e
+                else e - ft_size f e - 32) = tag_start f e).
   { unfold tag_start, ft_hashdr. destruct (Z.land (ft_flags f e) HAS_HEADER =? 0); cbn [negb]; lia. }
-  rewrite Hh. destruct (tag_start f e <? 0) eqn:C; [lia|].
+  rewrite Hh. destruct (ft_size f e - 32 <? 0) eqn:C0; [lia|].
+  destruct (tag_start f e <? 0) eqn:C; [lia|].
   assert (Hle : tag_start f e <= zlen f).
   { unfold tag_start. destruct (ft_hashdr f e); lia. }
-  rewrite fix_start_id by (auto; lia).
-  destruct (ft_size f e - 32 <? -1) eqn:C2; [lia|]. rewrite andb_false_r.
-  eexists. split; [reflexivity|]. cbn [l_start l_end l_at_start l_data l_size l_items l_footer].
-  repeat split; try lia.
+  rewrite fix_start_id by (auto; lia). reflexivity.
+Qed.
+
+Theorem locate_tagged real f e :
+  strict_end f = Some e -> 32 <= ft_size f e -> 0 <= tag_start f e ->
+  has_marker (ztake (tag_start f e) f) = false ->
+  exists l, ape_locate real f = Ok (Some l) /\
+    l_start l = tag_start f e /\ l_end l = e /\ l_at_start l = false /\
+    l_data l = e - ft_size f e /\ l_size l = ft_size f e - 32 /\ l_items l = ft_count f e /\ l_footer l = Some (e - 32).
+Proof.
+  intros SE Hsz Hst Hm. exists (tagged_loc f e). split; [apply locate_tagged_eq; assumption|].
+  repeat split.
 Qed.
